@@ -1,0 +1,16 @@
+//go:build verif
+
+package snacl
+
+// Contracts for govc (see /verif/DESIGN.md, C03). Comment-only; compiled only with -tags verif.
+
+//@ spec func keyZero(sk *SecretKey) bool = sk != nil && sk.Key != nil && (forall j int :: 0 <= j && j < 32 ==> sk.Key[j] == 0)
+
+//@ func (*CryptoKey).Zero
+//@   modifies ck[*]
+//@   ensures zeroed: forall j int :: 0 <= j && j < 32 ==> ck[j] == 0
+
+//@ func (*SecretKey).Zero
+//@   requires has-key: sk.Key != nil
+//@   modifies sk.Key[*]
+//@   ensures zeroed: keyZero(sk)
